@@ -196,6 +196,40 @@ func Payload(o Options) *Scenario {
 	return sc
 }
 
+// UnixMode is the permission word a package stores for a Go file mode: the nine
+// permission bits plus setuid/setgid/sticky in their Unix positions. A mode
+// configured explicitly (file_info.mode) is a plain number and maps to itself.
+func UnixMode(m fs.FileMode) int64 {
+	u := int64(m & 0o7777)
+	if m&fs.ModeSetuid != 0 {
+		u |= 0o4000
+	}
+	if m&fs.ModeSetgid != 0 {
+		u |= 0o2000
+	}
+	if m&fs.ModeSticky != 0 {
+		u |= 0o1000
+	}
+	return u
+}
+
+// DiskSpecial reports whether a mode carries setuid/setgid/sticky in Go's
+// fs.FileMode representation, i.e. it was taken from a source file on disk.
+func DiskSpecial(m fs.FileMode) bool {
+	return m&(fs.ModeSetuid|fs.ModeSetgid|fs.ModeSticky) != 0
+}
+
+// AnyDiskSpecial: some wanted entry has such a mode.
+func (sc *Scenario) AnyDiskSpecial() bool {
+	r := false
+	for _, w := range sc.Wants {
+		if DiskSpecial(w.Mode) {
+			r = true
+		}
+	}
+	return r
+}
+
 // ForFormat returns the wanted entries a format ships: rpm has no implied
 // directories; ghosts exist only in rpm.
 func (sc *Scenario) ForFormat(format string) []Want {
